@@ -44,10 +44,15 @@ def set_executor(policy="fifo", isolated=False):
 def _norm_chunks(chunks, shape):
     if chunks is None or chunks == "auto" or chunks == -1:
         return tuple((s,) for s in shape)
+    if isinstance(chunks, dict):
+        chunks = tuple(chunks.get(i, chunks.get(i - len(shape), None)) for i in range(len(shape)))
     if isinstance(chunks, int):
         chunks = (chunks,) * len(shape)
     out = []
     for c, s in zip(chunks, shape):
+        if c is None:
+            out.append(None)
+            continue
         if isinstance(c, int):
             if c == -1 or c >= s:
                 out.append((s,) if s else (0,))
@@ -123,7 +128,9 @@ class DArr:
 
     def rechunk(self, *a, **k):
         chunks = a[0] if len(a) == 1 else (a if a else k.get("chunks"))
-        return DArr(self.data, chunks)
+        ch = _norm_chunks(chunks, self.shape)
+        ch = tuple(c if c is not None else self.chunks[i] for i, c in enumerate(ch))
+        return DArr(self.data, ch)
 
     def astype(self, *a, **k):
         return self
